@@ -1,25 +1,33 @@
 (** Property C12 - physical results do not depend on the non-dimensionalisation
     scale.  Statements only; proofs are in Thm/Scaling.v.  Every theorem is for
     an arbitrary field [F] (hence the reals), arbitrary scales with non-zero
-    entries and arbitrary sizes. *)
-From Dino Require Import Base.Ops Base.Sums Base.Inst Model.Sigma Model.Dual Thm.Dual Model.Scaling Thm.Scaling.
-From Coq Require Import Qcanon.
+    entries and arbitrary sizes.
+
+    What the algebra cannot see - a hard-coded constant that bypasses the scale
+    is a property of the call graph - is decided on the implementation by the
+    plugin (same SI problem under several scales; AST scan of call sites). *)
+From Dino Require Import Base.Ops Base.Sums Base.Inst Model.Sigma Model.Implicit Model.PrimEq Model.Integrators
+  Model.Dual Thm.Dual Model.Scaling Thm.Scaling.
+From Coq Require Import Qcanon Reals.
 Local Open Scope F_scope.
 
 Section C12.
   Context {F : Type} {o : Ops F} {Fc : FieldC o}.
 
-  (** dimension algebra: [factor s] is a group homomorphism from (Z^4, +) to the non-zero elements of F under multiplication *)
+  (** dimension algebra: [factor s] is a group homomorphism from (Z^4, +) to
+      the non-zero elements of F under multiplication *)
   Theorem C12_factor_homomorphism (s : scale) (d1 d2 : dim) :
     scale_nz s ->
     factor s (dadd d1 d2) = factor s d1 * factor s d2 /\ factor s dzero = 1 /\
-    factor s (dopp d1) = 1 / factor s d1 /\ factor s d1 <> 0.
+    factor s (dopp d1) = 1 / factor s d1 /\ factor s d1 <> 0 /\
+    (forall x, redim s d1 (nondim s d1 x) = x).
   Proof.
     intros Hs. repeat split.
     - exact (factor_add s d1 d2 Hs).
     - exact (factor_zero s).
     - exact (factor_opp s d1 Hs).
     - exact (factor_nonzero s d1 Hs).
+    - intros x. exact (redim_nondim s d1 x Hs).
   Qed.
 
   (** every dimensionally well-typed computation built from field operations is
@@ -36,8 +44,205 @@ Section C12.
     redim s1 d (eval (nondim_env s1 dv X) e) = redim s2 d (eval (nondim_env s2 dv X) e)
     /\ redim s1 d (eval (nondim_env s1 dv X) e) = eval X e.
   Proof. exact (scale_independence dv s1 s2 X e d). Qed.
+
+  (** the sigma-column operators, with dimension bookkeeping: sigma is
+      dimensionless; integrals and differences keep the dimension [d]; vertical
+      advection multiplies the dimensions of velocity and advected quantity;
+      the hydrostatic integral maps R (L^2 T^-2 Theta^-1) and T (Theta) to a
+      geopotential (L^2 T^-2) *)
+  Theorem C12_columns_homogeneous (s : scale) (d dw dx : dim) dot down K (b x w ls : nat -> F) wt wb dt db R j :
+    scale_nz s ->
+    cum_sigma_integral dot down K b (scol (factor s d) x) j = factor s d * cum_sigma_integral dot down K b x j /\
+    sigma_integral K b (scol (factor s d) x) = factor s d * sigma_integral K b x /\
+    centered_difference b (scol (factor s d) x) j = factor s d * centered_difference b x j /\
+    centered_vertical_advection K b (scol (factor s dw) w) (scol (factor s dx) x)
+        (factor s dw * wt) (factor s dw * wb) (factor s dx * dt) (factor s dx * db) j
+      = factor s (dadd dw dx) * centered_vertical_advection K b w x wt wb dt db j /\
+    geo_diff_dense K (factor s d_gas * R) ls (scol (factor s d_temp) x) j
+      = factor s d_geopot * geo_diff_dense K R ls x j /\
+    ((j < K)%nat -> geo_diff_sparse K (factor s d_gas * R) ls (scol (factor s d_temp) x) j
+      = factor s d_geopot * geo_diff_sparse K R ls x j).
+  Proof.
+    intros Hs.
+    assert (G : factor s d_geopot = factor s d_gas * factor s d_temp).
+    { rewrite <- factor_add by exact Hs. reflexivity. }
+    repeat split.
+    - apply cum_sigma_integral_homogeneous.
+    - apply sigma_integral_homogeneous.
+    - apply centered_difference_homogeneous.
+    - rewrite factor_add by exact Hs. apply centered_vertical_advection_bilinear.
+    - rewrite G. apply geo_diff_dense_homogeneous.
+    - intros Hj. rewrite G. now apply geo_diff_sparse_homogeneous.
+  Qed.
+
+  (** nodal terms of the primitive equations: velocity L T^-1, vorticity /
+      divergence / Coriolis T^-1, temperature Theta, grad(ln ps) L^-1, R
+      L^2 T^-2 Theta^-1, kappa / sigma / sec^2(lat) dimensionless.  The adiabatic
+      temperature term comes out in Theta T^-1, d(ln ps)/dt in T^-1 and both
+      components of the momentum-equation term in L T^-2. *)
+  Theorem C12_nodal_terms_homogeneous (s : scale) (c : PEcfg) (x : NCol) va n :
+    scale_nz s ->
+    let x' := scale_ncol (factor s d_vel) (factor s d_rate) (factor s d_temp) (factor s d_invlen) x in
+    let c' := scale_cfg (factor s d_temp) (factor s d_gas) c in
+    temp_adiabatic c' x' n = factor s d_temp_rate * temp_adiabatic c x n /\
+    log_pressure_tendency c' x' = factor s d_rate * log_pressure_tendency c x /\
+    combined_u c' va x' (rt_dry c' x') n = factor s d_accel * combined_u c va x (rt_dry c x) n /\
+    combined_v c' va x' (rt_dry c' x') n = factor s d_accel * combined_v c va x (rt_dry c x) n.
+  Proof.
+    intros Hs x' c'.
+    assert (H1 : factor s d_vel * factor s d_invlen = factor s d_rate).
+    { rewrite <- factor_add by exact Hs. reflexivity. }
+    assert (H2 : factor s d_gas * factor s d_temp * factor s d_invlen = factor s d_vel * factor s d_rate).
+    { rewrite <- !factor_add by exact Hs. reflexivity. }
+    assert (H3 : factor s d_temp_rate = factor s d_temp * factor s d_rate).
+    { rewrite <- factor_add by exact Hs. reflexivity. }
+    assert (H4 : factor s d_accel = factor s d_vel * factor s d_rate).
+    { rewrite <- factor_add by exact Hs. reflexivity. }
+    split; [|split].
+    - rewrite H3. exact (temp_adiabatic_homogeneous _ _ _ _ _ H1 c x n).
+    - exact (log_pressure_tendency_homogeneous _ _ _ _ _ H1 c x).
+    - rewrite H4. exact (combined_uv_homogeneous _ _ _ _ _ H1 H2 c va x n).
+  Qed.
 End C12.
+
+(** time stepping: if the equations under the second scale are the rescaled
+    equations ([Fx' (S u) = (1/tau) L (Fx u)], same for [G], and the resolvent
+    with the rescaled step), every integrator of time_integration.py commutes
+    with the change of scale [S u = L u + c0], [dt' = tau dt] *)
+Section C12_steps.
+  Context {F : Type} {o : Ops F} {Fc : FieldC o} {V : Type} {vo : VOps F V}.
+  Hypothesis vadd_assoc : forall u v w : V, vadd u (vadd v w) = vadd (vadd u v) w.
+  Hypothesis vadd_comm : forall u v : V, vadd u v = vadd v u.
+  Hypothesis vscal_add : forall (a : F) (u v : V), vscal a (vadd u v) = vadd (vscal a u) (vscal a v).
+  Hypothesis vscal_mul : forall (a b : F) (u : V), vscal a (vscal b u) = vscal (a * b) u.
+  Hypothesis vscal_zero : forall a : F, vscal a vzero = (vzero : V).
+  Variables (L : V -> V) (c0 : V) (tau : F).
+  Hypothesis L_add : forall u v, L (vadd u v) = vadd (L u) (L v).
+  Hypothesis L_scal : forall a u, L (vscal a u) = vscal a (L u).
+  Hypothesis L_zero : L vzero = vzero.
+  Hypothesis tau_nz : tau <> 0.
+  Variables (Fx G : V -> V) (Ginv : V -> F -> V) (Fx' G' : V -> V) (Ginv' : V -> F -> V).
+  Notation S := (Sc L c0).
+  Hypothesis HF : forall u, Fx' (S u) = Tn L tau (Fx u).
+  Hypothesis HG : forall u, G' (S u) = Tn L tau (G u).
+  Hypothesis HGinv : forall u eta, Ginv' (S u) (tau * eta) = S (Ginv u eta).
+
+  Theorem C12_step_covariant dt alpha al be ga a_ex a_im b_ex b_im u p q :
+    euler_step Fx' Ginv' (tau * dt) (S u) = S (euler_step Fx Ginv dt u) /\
+    cn_rk2_step Fx' G' Ginv' (tau * dt) (S u) = S (cn_rk2_step Fx G Ginv dt u) /\
+    ls_step Fx' G' Ginv' (tau * dt) al be ga (S u) = S (ls_step Fx G Ginv dt al be ga u) /\
+    imex_step Fx' G' Ginv' (tau * dt) a_ex a_im b_ex b_im (S u)
+      = option_map S (imex_step Fx G Ginv dt a_ex a_im b_ex b_im u) /\
+    leapfrog_step Fx' G' Ginv' (tau * dt) alpha (S p, S q)
+      = (S (fst (leapfrog_step Fx G Ginv dt alpha (p, q))), S (snd (leapfrog_step Fx G Ginv dt alpha (p, q)))).
+  Proof.
+    split; [|split; [|split; [|split]]].
+    - exact (euler_step_covariant vadd_assoc vadd_comm vscal_mul L c0 tau L_add L_scal tau_nz Fx Ginv Fx' Ginv' HF HGinv dt u).
+    - exact (cn_rk2_step_covariant vadd_assoc vadd_comm vscal_add vscal_mul L c0 tau L_add L_scal tau_nz Fx G Ginv Fx' G' Ginv' HF HG HGinv dt u).
+    - exact (ls_step_covariant vadd_assoc vadd_comm vscal_add vscal_mul vscal_zero L c0 tau L_add L_scal L_zero tau_nz Fx G Ginv Fx' G' Ginv' HF HG HGinv dt al be ga u).
+    - exact (imex_step_covariant vadd_assoc vadd_comm vscal_add vscal_mul vscal_zero L c0 tau L_add L_scal L_zero tau_nz Fx G Ginv Fx' G' Ginv' HF HG HGinv dt a_ex a_im b_ex b_im u).
+    - exact (leapfrog_covariant vadd_assoc vadd_comm vscal_add vscal_mul L c0 tau L_add L_scal tau_nz Fx G Ginv Fx' G' Ginv' HF HG HGinv dt alpha p q).
+  Qed.
+
+  (** k filtered steps: trajectories under two scales stay related by [S] *)
+  Theorem C12_trajectory_covariant (step step' : V -> V) (fl fl' : list (V -> V -> V)) :
+    (forall u, step' (S u) = S (step u)) ->
+    Forall2 (fun f' f => forall u w, f' (S u) (S w) = S (f u w)) fl' fl ->
+    forall k u, Nat.iter k (step_with_filters step' fl') (S u) = S (Nat.iter k (step_with_filters step fl) u).
+  Proof. exact (trajectory_covariant L c0 step step' fl fl'). Qed.
+End C12_steps.
+
+Section C12_lnps.
+  Context {F : Type} {o : Ops F} {Fc : FieldC o}.
+
+  (** log surface pressure changes by an additive constant under a change of
+      scale; operators that annihilate constants (gradient, Laplacian) do not see
+      it, operators that fix the constant mode (resolvent at l = 0, filters) pass it on *)
+  Theorem C12_log_pressure_shift n (A : nat -> nat -> F) (x : nat -> F) c i :
+    ((forall r, sumn n (fun j => A r j) = 0) -> lin n A (shift_field c x) i = lin n A x i) /\
+    ((0 < n)%nat -> (forall r, A r 0%nat = 0) -> lin n A (shift_mode0 c x) i = lin n A x i) /\
+    ((0 < n)%nat -> (forall r, A r 0%nat = delta r 0%nat) ->
+       lin n A (shift_mode0 c x) i = shift_mode0 c (lin n A x) i).
+  Proof.
+    split; [|split].
+    - exact (shift_killed_nodal n A x c i).
+    - exact (shift_killed_modal n A x c i).
+    - exact (shift_passed_modal n A x c i).
+  Qed.
+
+  (** Held-Suarez: sigma * exp(lnps) / p0 with p0 non-dimensionalised by the same scale *)
+  Theorem C12_p_over_p0_invariant (E : F -> F) (sigma lnps_si p0_si lp fp : F) :
+    (forall a b, E (a + b) = E a * E b) -> E lp = fp -> fp <> 0 -> p0_si <> 0 ->
+    p_over_p0 E sigma (lnps_si - lp) (p0_si / fp) = p_over_p0 E sigma lnps_si p0_si.
+  Proof. exact (p_over_p0_invariant E sigma lnps_si p0_si lp fp). Qed.
+End C12_lnps.
+
+(** over the reals with Coq's exponential: any positive pressure factor *)
+Theorem C12_p_over_p0_invariant_R (sigma lnps_si p0_si fp : R) :
+  (0 < fp)%R -> p0_si <> 0%R ->
+  p_over_p0 exp sigma (lnps_si - ln fp)%R (p0_si / fp)%R = p_over_p0 exp sigma lnps_si p0_si.
+Proof.
+  intros Hfp Hp0.
+  apply (C12_p_over_p0_invariant (o := ROps) exp sigma lnps_si p0_si (ln fp) fp).
+  - exact exp_plus.
+  - now apply exp_ln.
+  - intro H. rewrite H in Hfp. exact (Rlt_irrefl _ Hfp).
+  - exact Hp0.
+Qed.
+
+(** Non-vacuity over Qc: a non-zero scale; a well-typed expression with
+    non-vanishing denominators ((g*h + u*u) / (R*T), dimensionless) and an
+    ill-typed one; and a concrete nonlinear IMEX system (u' = u^2 - k u on
+    V = Qc, u a rate) that satisfies every hypothesis of the step theorems with
+    tau = 3, L u = u / 3. *)
+Example C12_hyps_satisfiable :
+  let s := mkscale (Q2Qc 2) (Q2Qc 3) (Q2Qc 5) (Q2Qc (7 # 2)) in
+  let dv := fun i : nat => nth i [d_grav; d_length; d_vel; d_gas; d_temp] dzero in
+  let e := EDiv (EAdd (EMul (EVar 0) (EVar 1)) (EMul (EVar 2) (EVar 2))) (EMul (EVar 3) (EVar 4)) in
+  let x := fun i : nat => Q2Qc (nth i [10; 3; 7; 287; 250]%Q 1%Q) in
+  scale_nz s /\ dim_of dv e = Some dzero /\ denoms_nz x e /\
+  dim_of dv (EAdd (EVar 0) (EVar 1) : expr Qc) = None /\
+  factor s d_pressure = Q2Qc (5 # 18) /\
+  (let tau := Q2Qc 3 in let k := Q2Qc 2 in
+   let vo := mkVOps Qc Qc (Q2Qc 0) Qcplus Qcmult in
+   let L := fun u : Qc => u / tau in
+   let Fx := fun u : Qc => u * u in
+   let G := fun u : Qc => - (k * u) in let G' := fun u : Qc => - (k / tau * u) in
+   let Ginv := fun (u eta : Qc) => u / (1 + eta * k) in
+   let Ginv' := fun (u eta : Qc) => u / (1 + eta * (k / tau)) in
+   tau <> 0 /\
+   (forall u, Fx (Sc (vo := vo) L 0 u) = Tn (vo := vo) L tau (Fx u)) /\
+   (forall u, G' (Sc (vo := vo) L 0 u) = Tn (vo := vo) L tau (G u)) /\
+   (forall u eta, 1 + eta * k <> 0 -> Ginv' (Sc (vo := vo) L 0 u) (tau * eta) = Sc (vo := vo) L 0 (Ginv u eta))).
+Proof.
+  cbv zeta.
+  assert (NZ : forall q : Q, Qeq_bool q 0 = false -> Q2Qc q <> Q2Qc 0).
+  { intros q Hq H. apply (f_equal this) in H. cbn in H.
+    assert (E : Qeq (Qred q) (Qred 0)) by (rewrite H; reflexivity).
+    rewrite !Qred_correct in E. apply Qeq_bool_iff in E. congruence. }
+  split; [|split; [|split; [|split; [|split]]]].
+  - repeat split; apply NZ; reflexivity.
+  - reflexivity.
+  - cbn. repeat split. intro H. vm_compute in H. discriminate H.
+  - reflexivity.
+  - vm_compute. apply Qc_is_canon. reflexivity.
+  - assert (T3 : Q2Qc 3 <> Q2Qc 0) by (apply NZ; reflexivity).
+    split; [exact T3|]. split; [|split].
+    + intros u. unfold Sc, Tn; cbn. field. exact T3.
+    + intros u. unfold Sc, Tn; cbn. field. exact T3.
+    + intros u eta Hnz. unfold Sc; cbn in *. field.
+      repeat split; try exact T3; try exact Hnz.
+      all: intro H; apply Hnz; rewrite <- H; field; exact T3.
+Qed.
 
 Print Assumptions C12_factor_homomorphism.
 Print Assumptions C12_welldim_homogeneous.
 Print Assumptions C12_scale_independence.
+Print Assumptions C12_columns_homogeneous.
+Print Assumptions C12_nodal_terms_homogeneous.
+Print Assumptions C12_step_covariant.
+Print Assumptions C12_trajectory_covariant.
+Print Assumptions C12_log_pressure_shift.
+Print Assumptions C12_p_over_p0_invariant.
+Print Assumptions C12_p_over_p0_invariant_R.
+Print Assumptions C12_hyps_satisfiable.
